@@ -9,12 +9,26 @@ TECH = "contract-based deductive verification (sidecar contracts on the real fun
 NOTE = ("Trusted: z3/cvc5; the pyvc VC generator (symex/values/arrays/contract); the library contracts for numpy/scipy/dask "
         "(pyvc/stubs.py, rotation.py); machine floats as reals, fixed-width ints as integers; termination not proved. ")
 CLAIMED = {
+    "C01": ("DESIGN.md section 2 / C01",
+            "Deductive, any number of molecules (summarised loops) and all SO(3) orientations: LoaderBase._post_align turns "
+            "result i into pos_i + scale*M_i s_i and M_i R_i with score/shift features of result i and the molecule's own "
+            "feature row kept; Molecules.linear_transform / translate_internal / rotate_by_rotvec_internal implement "
+            "'translate by the un-rotated shift in the molecule frame, then rotate internally'.",
+            NOTE + "Trusted axiom: Rodrigues equivariance from_rotvec(M v) M == M from_rotvec(v); that model.align returns "
+            "the true (s, R) is C04/C06's subject; batch/group write-back not yet under contract."),
     "C02": ("DESIGN.md section 2 / C02",
             "Deductive, all inputs: make_slice_and_pad and prepare_affine are executed symbolically from /repo's source; "
             "slice/pad arithmetic, out-of-bound raising (iff no overlap), block == tomogram window, the affine matrix "
             "(sampling coordinate c + R(k-(s-1)/2)) and containment of every in-ball sample with its stencil in the block "
             "(orders 0,1,3, all rotations) are discharged by z3; interpolation itself is a trusted scipy contract.",
             NOTE + "Cauchy-Schwarz is used as proved instances; scipy.ndimage.affine_transform semantics assumed."),
+    "C03": ("DESIGN.md section 2 / C03",
+            "Deductive for the single-tomogram loader, any number of molecules: construct_loading_tasks builds exactly one "
+            "task per molecule in molecule order (task i: position pos_i/scale, orientation R_i, loader order, requested "
+            "shape; the crop uses the block and matrix prepared for the same molecule; declared array shape == task shape) "
+            "and _post_align writes result i to row i next to molecule i's own feature row, without modifying the source.",
+            NOTE + "BatchLoader task order, groups, filter/sort/sample derivations and iter_mapping_tasks pairing are not "
+            "under contract yet (see DESIGN.md: limits)."),
     "C05": ("DESIGN.md section 2 / C05",
             "Deductive, all inputs: for every max_shifts >= 0 (not only the 1/20 grid) the backend alignment kernels "
             "(_create_mesh, upsample, subpixel_zncc/ncc/pcc/fsc, crop_by_max_shifts, ncc_landscape chain) raise no "
@@ -33,6 +47,20 @@ CLAIMED = {
             "k -> -k symmetry proved off the Nyquist planes (on them: recorded known finding); NoWedge all ones; "
             "UnionAxes = element-wise OR of its members; tuple / model / legacy keyword select the same tilt model.",
             NOTE + "sin/cos are uninterpreted (sin^2+cos^2=1); the sign convention of the tilt angle is the code's."),
+    "C09": ("DESIGN.md section 2 / C09",
+            "Deductive, any molecule count: average is the axis-0 mean (sum over all N tasks / N) of the stack of this "
+            "loader's own loading tasks; random_splitter's second index array is the complement of the first and the first "
+            "is non-empty for n >= 2; average_split builds half-map (t,0)/(t,1) as the masked means selected by the two "
+            "arrays of the t-th split over the same task stack, seeded by `seed`.",
+            NOTE + "dask stack/rechunk/mean/boolean selection are value-preserving for any chunking (trusted); non-emptiness "
+            "of the second half is a pigeonhole argument outside the solver; batch/group averages not yet under contract."),
+    "C11": ("DESIGN.md section 2 / C11",
+            "Deductive, any molecule count and all SO(3) orientations (matrix view): x/y/z are columns 2/1/0 of the rotation "
+            "and unit vectors; rotate_by composes on the left and keeps positions; translate / translate_internal add the "
+            "world / molecule-frame shift; rotate_by_rotvec_internal composes on the right (uses z = cross(x,y), proved "
+            "from orthogonality + det = 1 by a lemma chain); copy=True leaves the receiver unmodified.",
+            NOTE + "Trusted: scipy Rotation algebra, the Rodrigues equivariance axiom; from_axes / Euler / quaternion round "
+            "trips, affine_matrix and local_coordinates are not under contract yet."),
     "C14": ("DESIGN.md section 2 / C14",
             "Deductive, all template shapes (odd/even), poses, scales: _prep_iterators' affine coefficients put the "
             "template centre on pos/scale (fragment voxel o at start+o samples centre + R^-1(start+o-pos)); _prep_slices "
@@ -53,6 +81,12 @@ CLAIMED = {
             "== input shape, the spectrum handed to the inverse transform is weight x spectrum(input), and the Backend / "
             "pipeline entry points delegate with unchanged arguments.",
             NOTE + "FFT linearity, irfftn(rfftn(x), s=x.shape)==x and the half/full spectrum correspondence are assumed lemmas."),
+    "C17": ("DESIGN.md section 2 / C17",
+            "Deductive, all shapes and shell widths: fourier_shell_correlation labels centred bin (i,j,k) with "
+            "trunc(|f|/dfreq), sums Re(F0 conj F1), |F0|^2, |F1|^2 over the same shells and returns their normalised "
+            "quotient with freq[l] = (l+0.5) dfreq; fsc_with_halfmaps correlates, per set, the two masked half-maps of "
+            "average_split(n_set, seed) with the requested or default shell width and returns those halves.",
+            NOTE + "scipy sum_labels / FFT are trusted; the [-1,1] range is Cauchy-Schwarz (not machine-checked here)."),
     "C18": ("DESIGN.md section 2 / C18",
             "Deductive for the part a contract can decide: exactness needs the decomposition to come from da.linalg.svd; "
             "DaskPCA._get_solver (configuration used by PcaClassifier: svd_solver='auto') is proved to return 'full' for "
